@@ -361,7 +361,8 @@ fn rt_record(w: &mut W, prop: &str, proto: &str, v: Result<RtVerdict, Div>, sut:
 pub fn run_c09(w: &mut W) {
     for idx in w.indices() {
         let mut rng = w.begin_case(idx, "v9-stream");
-        let cfg = stream_cfg(&mut rng);
+        let mut cfg = stream_cfg(&mut rng);
+        cfg.odd_padding = rng.chance(1, 2);
         let mut ex = Exporter::new();
         let mut sut = Sut::new(1);
         let n = 2 + rng.usize(6);
@@ -409,7 +410,8 @@ pub fn run_c09(w: &mut W) {
 pub fn run_c10(w: &mut W) {
     for idx in w.indices() {
         let mut rng = w.begin_case(idx, "ipfix-stream");
-        let cfg = stream_cfg(&mut rng);
+        let mut cfg = stream_cfg(&mut rng);
+        cfg.odd_padding = rng.chance(1, 2);
         let mut ex = Exporter::new();
         let mut sut = Sut::new(1);
         let n = 2 + rng.usize(6);
